@@ -55,7 +55,7 @@ def _sample(r):
 class SingleRun(object):
     """A property decided on single simulated runs (invariants + end-of-run history checks)."""
     prop = None
-    RUNS = {"quick": 2400, "thorough": 80000}
+    RUNS = {"quick": 6000, "thorough": 80000}
     BUDGET_S = {"quick": 75, "thorough": 560}
     RULE = ""
     ASSUMPTIONS = COMMON_ASSUMPTIONS
@@ -140,7 +140,8 @@ class SingleRun(object):
         prog = prog_from_json(case["ast"])
         profile = self.replay_profile(as_prop)
         opts = dict(case.get("world_opts") or {})
-        opts["kf_through"] = True
+        # (a replay written for a signature that is not listed as open stops at it, as the search did)
+        opts["kf_through"] = not case.get("kf_strict")
         return driver.replay(prog, case["ops"], profile, opts)
 
     def shrink(self, case, vi):
